@@ -3178,7 +3178,11 @@ impl Server {
                 match timeout_str.parse::<f64>() {
                     Ok(t) if t < 0.0 => return Ok(RespFrame::error("ERR timeout is not a float or out of range")),
                     Ok(0.0) => None, // 0 means block forever
-                    Ok(t) => Some(std::time::Duration::from_secs_f64(t)),
+                    // NaN, infinity and values whose deadline cannot be represented are refused
+                    Ok(t) => match std::time::Duration::try_from_secs_f64(t) {
+                        Ok(d) if Instant::now().checked_add(d).is_some() => Some(d),
+                        _ => return Ok(RespFrame::error("ERR timeout is not a float or out of range")),
+                    },
                     Err(_) => return Ok(RespFrame::error("ERR timeout is not a float or out of range")),
                 }
             }
@@ -3243,7 +3247,11 @@ impl Server {
                 match timeout_str.parse::<f64>() {
                     Ok(t) if t < 0.0 => return Ok(RespFrame::error("ERR timeout is not a float or out of range")),
                     Ok(0.0) => None, // 0 means block forever
-                    Ok(t) => Some(std::time::Duration::from_secs_f64(t)),
+                    // NaN, infinity and values whose deadline cannot be represented are refused
+                    Ok(t) => match std::time::Duration::try_from_secs_f64(t) {
+                        Ok(d) if Instant::now().checked_add(d).is_some() => Some(d),
+                        _ => return Ok(RespFrame::error("ERR timeout is not a float or out of range")),
+                    },
                     Err(_) => return Ok(RespFrame::error("ERR timeout is not a float or out of range")),
                 }
             }
